@@ -264,7 +264,8 @@ class Case(object):
         self.reaped_seen = False
         self.kill_after_reap = False
         self.gone = False
-        self.base_fds = nfds()
+        self.base_fdset = set(os.listdir('/proc/self/fd'))
+        self.base_fds = len(self.base_fdset)
         self.base_zombies = zombie_children()
 
     # ---- to be provided by the transports ----
@@ -404,15 +405,35 @@ class Case(object):
         finally:
             _current = None
         self.release()
-        self.events.append({'e': 'end', 'dfds': nfds() - self.base_fds,
-                            'zomb': zombie_children() - self.base_zombies,
-                            'proc': proc_state(self.pid, os.getpid()) if self.pid > 0 else 'reaped'})
+        self.events.append(self.leak_facts())
         return self.events
 
     def release(self):
         if self.intruder is not None:
             self.intruder.close()
             self.intruder = None
+
+    def leak_facts(self):
+        """descriptors / zombies left behind by this case; whatever is left is then removed so that
+        the next case of this worker starts clean (the leak is charged to THIS case only)"""
+        d = nfds() - self.base_fds
+        z = zombie_children() - self.base_zombies
+        p = proc_state(self.pid, os.getpid()) if self.pid > 0 else 'reaped'
+        if d != 0 or z != 0 or p != 'reaped' and isinstance(self, ChildCase):
+            gc.collect()
+            for f in os.listdir('/proc/self/fd'):
+                if f not in self.base_fdset:
+                    try:
+                        os.close(int(f))
+                    except OSError:
+                        pass
+            if self.pid > 0 and proc_state(self.pid, os.getpid()) != 'reaped':
+                try:
+                    os.kill(self.pid, signal.SIGKILL)
+                    os.waitpid(self.pid, 0)
+                except OSError:
+                    pass
+        return {'e': 'end', 'dfds': d, 'zomb': z, 'proc': p}
 
     def abort(self):
         """machinery-level cleanup: nothing of this case may survive"""
@@ -577,6 +598,8 @@ class PtyCase(ChildCase):
     def observe(self):
         o = {'proc': proc_state(self.pid, os.getpid()), 'fd': self.fd_state()}
         o.update(self.real_fate())
+        # descriptors this case holds beyond the harness' own (command FIFO, the intruder's three)
+        o['dfd'] = nfds() - self.base_fds - (1 if self.cmd is not None else 0) - (3 if self.intruder is not None else 0)
         c = self.child
         if c is None:
             o.update(gone=True, term=False, closed=False, fdv='m1', es=-1, ss=-1, sk='none', sv=-1, eof=False, pclosed=False)
@@ -611,7 +634,7 @@ class PopenCase(ChildCase):
         c = self.child
         sk, sv = status_pair(c.status)
         o = self.real_fate()
-        return {'proc': proc_state(self.pid, os.getpid()), 'fd': 'open', 'gone': False, 'fk': o['fk'], 'fv': o['fv'],
+        return {'proc': proc_state(self.pid, os.getpid()), 'fd': 'open', 'gone': False, 'fk': o['fk'], 'fv': o['fv'], 'dfd': -1,
                 'term': bool(c.terminated), 'closed': False, 'fdv': 'num',
                 'es': -1 if c.exitstatus is None else c.exitstatus,
                 'ss': -1 if c.signalstatus is None else c.signalstatus, 'sk': sk, 'sv': sv,
@@ -638,9 +661,7 @@ class PopenCase(ChildCase):
         c = None
         self.release()
         gc.collect()
-        self.events.append({'e': 'end', 'dfds': nfds() - self.base_fds,
-                            'zomb': zombie_children() - self.base_zombies,
-                            'proc': proc_state(self.pid, os.getpid())})
+        self.events.append(self.leak_facts())
         return self.events
 
 
@@ -711,7 +732,7 @@ class FdCase(Case):
 
     def observe(self):
         c = self.child
-        o = {'proc': 'run', 'fk': 'none', 'fv': -1, 'fd': self.fd_state(), 'es': -1, 'ss': -1, 'sk': 'none', 'sv': -1,
+        o = {'proc': 'run', 'fk': 'none', 'fv': -1, 'dfd': -1, 'fd': self.fd_state(), 'es': -1, 'ss': -1, 'sk': 'none', 'sv': -1,
              'term': False, 'pclosed': False}
         if c is None:
             o.update(gone=True, closed=False, fdv='m1', eof=False)
@@ -750,5 +771,7 @@ class FdCase(Case):
                 pass
         self.keep = []
         self.release()
-        self.events.append({'e': 'end', 'dfds': nfds() - self.base_fds, 'zomb': 0, 'proc': 'run'})
+        e = self.leak_facts()
+        e['proc'] = 'run'
+        self.events.append(e)
         return self.events
